@@ -579,7 +579,18 @@ namespace bloch::runtime {
         bool hasClasses = !program.classes.empty();
         if (hasClasses) {
             buildClassTable(program);
-            for (auto& kv : m_classTable) initStaticFields(kv.second.get());
+            // Initialise statics in an order that does not depend on where the classes were
+            // declared (nor on hash-table layout); an initialiser that reads another class's
+            // static triggers that class's initialisation on demand (see staticFieldWithOwner).
+            std::vector<std::string> classNames;
+            classNames.reserve(m_classTable.size());
+            for (auto& kv : m_classTable) classNames.push_back(kv.first);
+            std::sort(classNames.begin(), classNames.end());
+            for (const auto& className : classNames) {
+                auto it = m_classTable.find(className);
+                if (it != m_classTable.end())
+                    initStaticFields(it->second.get());
+            }
             ensureGcThread();
         }
         for (auto& fn : program.functions) {
@@ -657,7 +668,7 @@ namespace bloch::runtime {
                 if (field && field->offset < thisObj->fields.size())
                     return thisObj->fields[field->offset];
             }
-            auto [field, owner] = findStaticFieldWithOwner(m_currentClassCtx, name);
+            auto [field, owner] = staticFieldWithOwner(m_currentClassCtx, name);
             if (field && owner && field->offset < owner->staticStorage.size())
                 return owner->staticStorage[field->offset];
         }
@@ -712,7 +723,7 @@ namespace bloch::runtime {
                     return;
                 }
             }
-            auto [field, owner] = findStaticFieldWithOwner(m_currentClassCtx, name);
+            auto [field, owner] = staticFieldWithOwner(m_currentClassCtx, name);
             if (field && owner && field->offset < owner->staticStorage.size()) {
                 Value newVal = v;
                 const Value& existing = owner->staticStorage[field->offset];
@@ -1300,9 +1311,18 @@ namespace bloch::runtime {
         return instantiateGeneric(nt.get(), subst);
     }
 
+    std::pair<RuntimeField*, RuntimeClass*> RuntimeEvaluator::staticFieldWithOwner(
+        RuntimeClass* cls, const std::string& name) {
+        auto found = findStaticFieldWithOwner(cls, name);
+        if (found.second && !found.second->staticInitStarted)
+            initStaticFields(found.second);
+        return found;
+    }
+
     void RuntimeEvaluator::initStaticFields(RuntimeClass* cls) {
         if (!cls)
             return;
+        cls->staticInitStarted = true;
         for (size_t i = 0; i < cls->staticFields.size(); ++i) {
             auto& field = cls->staticFields[i];
             auto& slot = cls->staticStorage[i];
@@ -2589,7 +2609,7 @@ namespace bloch::runtime {
                                  "null reference");
             }
             if (obj.type == Value::Type::ClassRef && obj.classRef) {
-                auto [field, owner] = findStaticFieldWithOwner(obj.classRef, memAcc->member);
+                auto [field, owner] = staticFieldWithOwner(obj.classRef, memAcc->member);
                 RuntimeMethod* method = findMethod(obj.classRef, memAcc->member);
                 if (field && owner) {
                     size_t idx = field->offset;
@@ -2615,7 +2635,7 @@ namespace bloch::runtime {
                 } else {
                     auto [staticField, owner] =
                         obj.objectValue->cls
-                            ? findStaticFieldWithOwner(obj.objectValue->cls, memAcc->member)
+                            ? staticFieldWithOwner(obj.objectValue->cls, memAcc->member)
                             : std::pair<RuntimeField*, RuntimeClass*>{nullptr, nullptr};
                     if (staticField && owner && staticField->offset < owner->staticStorage.size())
                         return owner->staticStorage[staticField->offset];
@@ -3232,13 +3252,13 @@ namespace bloch::runtime {
                 } else {
                     auto [staticField, owner] =
                         obj.objectValue->cls
-                            ? findStaticFieldWithOwner(obj.objectValue->cls, memAssign->member)
+                            ? staticFieldWithOwner(obj.objectValue->cls, memAssign->member)
                             : std::pair<RuntimeField*, RuntimeClass*>{nullptr, nullptr};
                     if (staticField && owner && staticField->offset < owner->staticStorage.size())
                         owner->staticStorage[staticField->offset] = rhs;
                 }
             } else if (obj.type == Value::Type::ClassRef && obj.classRef) {
-                auto [field, owner] = findStaticFieldWithOwner(obj.classRef, memAssign->member);
+                auto [field, owner] = staticFieldWithOwner(obj.classRef, memAssign->member);
                 if (field && owner && field->offset < owner->staticStorage.size())
                     owner->staticStorage[field->offset] = rhs;
             }
